@@ -29,7 +29,7 @@ def adapt(run):
             out.append({"ev": "UpRelease", "e": ev["tag"], "count": ev["count"], "fired": bool(ev["fired"])})
         elif k == "deliver":
             d2es[ev["d"]] = list(ev["x"])
-            out.append({"ev": "Flush", "es": list(ev["x"])})
+            out.append({"ev": "Flush", "es": list(ev["x"]), "md": ev["md"]})
         elif k == "cons_done" and not sync:
             out.append({"ev": "ConsumerDone", "es": d2es.get(ev["d"], [])})
         elif k == "release" and ev["site"].endswith("partition._flush"):
@@ -57,6 +57,8 @@ def adapt(run):
             for key, v in o.get("buf", []):
                 bufs[0 if key == -1 else key] = list(v)
             out.append({"ev": "ObsBuf", "buf": bufs})
+            if run["cfg"].get("timeout"):
+                out.append({"ev": "ObsTimers", "armed": o.get("armed", [])})
             out.append({"ev": "ObsRc", "rc": o["rc"]})
     for x in out:
         x.pop("_b", None)
@@ -68,7 +70,9 @@ def attribute(run, trace, idx):
         return "C08", "end"
     ev = trace[idx - 1]
     k = ev["ev"]
-    if k in ("Flush", "Advance", "ObsBuf"):
+    if k == "Flush" and ev.get("md") != ev.get("es"):
+        return "C10", "partition %s was delivered with metadata %s (expected the members' metadata in member order)" % (ev.get("es"), ev.get("md"))
+    if k in ("Flush", "Advance", "ObsBuf", "ObsTimers", "End"):
         return "C08", "%s does not match the specification (batch content, size, timer)" % k
     if k == "EmitRaised":
         return "C02", "emit raised %s" % ev.get("exc")
